@@ -4,6 +4,7 @@ package main
 
 import (
 	"bytes"
+	"runtime"
 	"context"
 	"fmt"
 	"os"
@@ -188,6 +189,13 @@ var solvers = []solverSpec{
 	{"z3", func(f string, t, seed int) []string {
 		return []string{"z3", fmt.Sprintf("-T:%d", t), fmt.Sprintf("smt.random_seed=%d", seed), f}
 	}},
+	// the same solver under other seeds: a portfolio is far more stable than any single configuration
+	{"z3-new/s+1", func(f string, t, seed int) []string {
+		return []string{"z3-new", fmt.Sprintf("-T:%d", t), fmt.Sprintf("smt.random_seed=%d", seed+1), f}
+	}},
+	{"z3-new/s+2", func(f string, t, seed int) []string {
+		return []string{"z3-new", fmt.Sprintf("-T:%d", t), fmt.Sprintf("smt.random_seed=%d", seed+2), fmt.Sprintf("sat.random_seed=%d", seed+2), f}
+	}},
 	{"cvc5", func(f string, t, seed int) []string {
 		return []string{"cvc5", fmt.Sprintf("--tlimit=%d", t*1000), fmt.Sprintf("--seed=%d", seed), "--produce-models", f}
 	}},
@@ -203,7 +211,23 @@ var (
 	keepQueries = false
 )
 
+// at most one solver process per core: a time limit measured under oversubscription says nothing about the query
+var procSem = make(chan struct{}, maxInt(2, runtime.NumCPU()/2))
+
+func maxInt(a, b int) int {
+	if a > b {
+		return a
+	}
+	return b
+}
+
 func runOne(ctx context.Context, sp solverSpec, file string, timeoutS int) (string, string, float64) {
+	select {
+	case procSem <- struct{}{}:
+	case <-ctx.Done():
+		return "timeout", "cancelled before start", 0
+	}
+	defer func() { <-procSem }()
 	args := sp.args(file, timeoutS, verifSeed)
 	start := time.Now()
 	cctx, cancel := context.WithTimeout(ctx, time.Duration(timeoutS+2)*time.Second)
